@@ -1,4 +1,4 @@
 SPECIFICATION Spec
-CONSTANTS NT = 3 NI = 5 NK = 2 NC = 1 Bug = "none"
+CONSTANTS NT = 3 NI = 4 NK = 2 NC = 1 Bug = "none"
 INVARIANTS InvMutex InvUse InvFilledOnce InvFlagLast InvRules InvCache InvOneInsert InvNothingLost InvIO InvItems InvResult InvThisCallOnly InvLocksFree InvWhole InvGuard
 CHECK_DEADLOCK TRUE
